@@ -161,7 +161,12 @@ theorem jointLoop_setOut (o : String) : ∀ (m : Option String) (p : Option Nat)
         · exact jointLoop_setOut o _ _ r
 
 /-- two calls that differ in their keyword overrides only -/
-def SameData (c₁ c₂ : Call) : Prop := c₁.data = c₂.data ∧ c₁.dataMat = c₂.dataMat ∧ c₁.context = c₂.context
+def SameData (c₁ c₂ : Call) : Prop :=
+  c₁.data = c₂.data ∧ c₁.dataMat = c₂.dataMat ∧ c₁.context = c₂.context ∧
+  c₁.freshDrop = c₂.freshDrop ∧ c₁.dropGrows = c₂.dropGrows
+
+theorem perSpecDrop_sameData {c₁ c₂ : Call} (h : SameData c₁ c₂) (d : Option Nat) : perSpecDrop c₁ d = perSpecDrop c₂ d := by
+  cases d <;> simp [perSpecDrop, h.2.2.2.1]
 
 theorem resolve_sameData {env : Env} {c₁ c₂ : Call} (h : SameData c₁ c₂) (m : Option String) :
     resolve env c₁ m = resolve env c₂ m := by
@@ -177,6 +182,18 @@ theorem instOf_sameData {c₁ c₂ : Call} (h : SameData c₁ c₂) (r : String 
 inductive All2 {α β : Type} (r : α → β → Prop) : List α → List β → Prop
   | nil : All2 r [] []
   | cons {a b l₁ l₂} : r a b → All2 r l₁ l₂ → All2 r (a :: l₁) (b :: l₂)
+
+theorem All2.append {α β : Type} {r : α → β → Prop} {a₁ a₂ : List α} {b₁ b₂ : List β}
+    (h₁ : All2 r a₁ b₁) (h₂ : All2 r a₂ b₂) : All2 r (a₁ ++ a₂) (b₁ ++ b₂) := by
+  induction h₁ with
+  | nil => exact h₂
+  | cons hab _ ih => exact All2.cons hab ih
+
+theorem All2.twice {α β : Type} {r : α → β → Prop} {a : List α} {b : List β} (again : Bool) (h : All2 r a b) :
+    All2 r (twice again a) (twice again b) := by
+  cases again
+  · exact h
+  · exact All2.append h h
 
 /-- requests that agree on everything but the output field of their leaves (and possibly `drop_rows`) -/
 def SameButOut (o₁ o₂ : String) (q₁ q₂ : Request) : Prop :=
@@ -286,15 +303,16 @@ theorem afterPrepared_setOut {env : Env} {c₁ c₂ : Call} (hc : SameData c₁ 
             exact All2.cons (mkReq_setOut (p := .many parts) e₁ e₂) All2.nil
     | none =>
       simp only [hjl] at h₁ h₂
-      cases e₁ : mapParts (fun ms => oneReq env c₁ ms d) (parts.map (fun p => (p.1, setOut o₁ p.2))) with
+      rw [perSpecDrop_sameData hc, hc.2.2.2.2] at h₁
+      cases e₁ : mapParts (fun ms => oneReq env c₁ ms (perSpecDrop c₂ d)) (parts.map (fun p => (p.1, setOut o₁ p.2))) with
       | error e => simp [e₁, Except.map] at h₁
       | ok t₁ =>
-        cases e₂ : mapParts (fun ms => oneReq env c₂ ms d) (parts.map (fun p => (p.1, setOut o₂ p.2))) with
+        cases e₂ : mapParts (fun ms => oneReq env c₂ ms (perSpecDrop c₂ d)) (parts.map (fun p => (p.1, setOut o₂ p.2))) with
         | error e => simp [e₂, Except.map] at h₂
         | ok t₂ =>
           simp only [e₁, e₂, Except.map, Except.ok.injEq] at h₁ h₂
           subst h₁; subst h₂
-          exact mapParts_oneReq_setOut hc d o₁ o₂ parts t₁ t₂ e₁ e₂
+          exact All2.twice _ (mapParts_oneReq_setOut hc _ o₁ o₂ parts t₁ t₂ e₁ e₂)
 
 /-! ### from requests to numbers -/
 
